@@ -2307,10 +2307,15 @@ class Recipe:
 
                 step.to[0] = self.results[dest_name]
                 self.used.add(dest_name)
+                if isinstance(solvent, Container):
+                    solvent_name = solvent.name
+                    if solvent_name in self.results:
+                        # containers and such can change while baking the recipe
+                        solvent = self.results[solvent_name]
                 results = Container.create_solution(solute, solvent, dest_name, **kwargs)
                 if isinstance(solvent, Container):
-                    self.used.add(solvent.name)
-                    self.results[solvent.name], self.results[dest_name] = results
+                    self.used.add(solvent_name)
+                    self.results[solvent_name], self.results[dest_name] = results
                 else:
                     self.results[dest_name] = results
                 step.substances_used = self.results[dest_name].get_substances()
